@@ -134,7 +134,7 @@ Encode(prog, version) ==
 TokOK(toks, i) == i \in 1..Len(toks) /\ Small(toks[i])
 IntAt(toks, i) == IF TokOK(toks, i) THEN UnZ(toks[i]) ELSE 0
 RawAt(toks, i) == IF i \in 1..Len(toks) THEN toks[i] ELSE <<>>
-Bytes(strs, j, n) == SubSeq(strs, j, j + n - 1)
+Bytes(strs, j, n) == IF n <= 0 \/ j < 1 \/ j + n - 1 > Len(strs) THEN <<>> ELSE SubSeq(strs, j, j + n - 1)
 
 \* Pre(lens)[k] = lens[1] + ... + lens[k-1];  Total(lens) = sum of all
 RECURSIVE PreFrom(_, _, _, _)
